@@ -26,6 +26,20 @@ CLAIMED = {
          'LazyInitError). No axioms.',
     technique='Coq proof of the step-level facts + per-run model-vs-implementation correspondence by vm_compute + implementation oracles',
     ref='DESIGN.md section 5, C02'),
+  'C03': dict(
+    text='A Gallina model of flax.nnx.graph written from the code (flatten with the identity-keyed ref_index and back references, unflatten with create-empty-then-fill, first-match split, '
+         'merge sorting by path, update, _graph_pop, Object and list/tuple/dict node implementations). Proved for every heap and root, cycles / self references / shared Variables / nested '
+         'containers included: unflatten(flatten(g)) is a graph isomorphism (one fresh cell per reachable object, references renamed by an injective numbering), hence the same paths exist '
+         'with the same shapes and two paths reach one object afterwards iff they did before; a filtered split is a partition by first match (raises when not exhaustive); merge does not '
+         'depend on the order of the states; flatten emits leaves in strictly increasing path order when sibling keys are sorted, so a split merged back in any order is the round trip; '
+         'update changes no node and keeps every Variable at its location and type, last write wins; pop (PARTIAL) only removes attributes holding selected Variables. Tied to /repo per '
+         'run: random graphs built from real nnx Modules/Variables; graphdef, leaves, buckets, update and pop results compared in Coq; isomorphism / freshness / clone / identity by an '
+         'independent canonical-form oracle.',
+    note='Trusted: Coq kernel, vm_compute, harness (graph encoder impl_graph.py, canonical form), jaxcompat. Containers (list/tuple/dict) have value semantics in model and code: a container '
+         'shared by two attributes is duplicated (known finding F9). pop leaves aliases of a popped Variable in place (known finding F19), so "removes exactly the selected Variables" is '
+         'proved only as: nothing else is removed and everything returned was selected. clone and "g is left untouched" are oracle-checked (the model is purely functional). No axioms.',
+    technique='Coq proof (joint flatten/unflatten invariant by fuel induction, partition and sorting lemmas) + per-run model-vs-implementation correspondence by vm_compute',
+    ref='DESIGN.md section 5, C03'),
   'C09': dict(
     text='Linen: on the reference semantics of C01, every key handed out is addressed by (stream after the params fallback, module path, per-scope count) and no two draws of one init/apply share '
          'an address (invariant over the interpreter, all programs); the byte string hashed with the separator determines the path for zero-free components (F8 and the no-separator collision '
